@@ -80,7 +80,7 @@ pub fn run(opts: &Opts, rep: &Report) {
     let threads = std::thread::available_parallelism().map(|n| n.get()).unwrap_or(8);
     let alt_cap = if tier.is_thorough() { 260 } else { 24 };
     let mut done = 0usize;
-    for chunk in all.chunks(512) {
+    for chunk in all.chunks(128) {
         if budget.exceeded() {
             rep.cap_hit(&format!("budget: {done}/{} failing sessions explored", all.len()));
             break;
